@@ -181,8 +181,14 @@ class ProcessTasks(Filter[Iterable[Task], Iterable[Any]]):
                         #Learners and environments are free to use the module level functions of coba.random. We seed
                         #them so that what they draw is determined by the experiment's seed alone and not by what was
                         #evaluated before in this process (or by the clock, in a newly started background process).
-                        coba_random.seed(CobaContext.store.get("experiment_seed"))
-                        yield ["T4", (env_id, lrn_id, val_id), list(SafeEvaluator(val).evaluate(env,lrn))]
+                        #(The generator that was there is put back afterwards: on a single process it is the caller's.)
+                        old_random = coba_random._random
+                        try:
+                            coba_random.seed(CobaContext.store.get("experiment_seed"))
+                            rows = list(SafeEvaluator(val).evaluate(env,lrn))
+                        finally:
+                            coba_random._random = old_random
+                        yield ["T4", (env_id, lrn_id, val_id), rows]
                         if hasattr(lrn,'finish') and task.copy: lrn.finish()
 
             except Exception as e:
